@@ -9,9 +9,9 @@ from harness import common as C
 
 META = {
     "id": "C12",
-    "technique": "Coq proof over every well-formed statement shape of target() (induction over the shape checker; all fault vectors, all argument/environment combinations) + translator that re-reads the statement sequence of target() from the current source (coq/Gen/TargetShape.v, obligation C12_current_shape_ok) + exhaustive effect-trace correspondence of the extracted model with the real target()/pio.py under a recording subprocess/tempfile/pathlib + property oracle on the recorded effects and the files on disk",
-    "level_text": "Theorems C12_* (coq/Props/C12.v) are proved for every statement list accepted by the decidable predicate shape_ok and every environment (validation verdict, upload flag, PlatformIO present/absent, all 2^8 fault vectors); C12_current_shape_ok re-checks on every run that the statement sequence the translator reads from src/Reduino/__init__.py is such a list. The per-step effect semantics (ensure_pio, write_project, compile_upload) is a hand model compared event by event with the real code on all scenarios of the run.",
-    "level_note": "Trusted: Coq kernel, translator harness/gen/target.py (ast of target(), fail-closed), extraction (ExtrOcamlBasic), OCaml driver, the recording doubles of subprocess.run/tempfile.mkdtemp/pathlib.Path in harness/impl/c12_impl.py. PlatformIO itself is not modelled (a present pio answers 0 unless a build/upload fault is injected; an absent one raises FileNotFoundError). The theorems are about the model; the correspondence bounds its distance from the code.",
+    "technique": "Coq proof over every well-formed statement shape of target() (induction over the shape checker; all fault vectors, all ways the PlatformIO probe can fail, all argument/environment combinations) + concrete layer tying the written platformio.ini to C13's verified render/configparser round trip + translator that re-reads the statement sequence of target(), the except clauses of ensure_pio() and the subprocess calls of compile_upload() from the current source (coq/Gen/TargetShape.v, obligation C12_current_shape_ok) + exhaustive effect-trace correspondence of the extracted model with the real target()/pio.py under a recording subprocess/tempfile/pathlib + property oracle on the recorded effects and the files on disk",
+    "level_text": "Theorems C12_* (coq/Props/C12.v) are proved for every statement list accepted by the decidable predicate shape_ok and every environment (validation verdict, upload flag, PlatformIO usable or failing its probe in any of five ways, all 2^10 fault vectors including a pio that can no longer be started at the build / upload); C12_current_shape_ok re-checks on every run that the statement sequence the translator reads from src/Reduino/__init__.py is such a list. The per-step effect semantics (ensure_pio, write_project, compile_upload) is a hand model compared event by event with the real code on all scenarios of the run.",
+    "level_note": "Trusted: Coq kernel, translator harness/gen/target.py (ast of target(), fail-closed), extraction (ExtrOcamlBasic), OCaml driver, the recording doubles of subprocess.run/tempfile.mkdtemp/pathlib.Path in harness/impl/c12_impl.py. PlatformIO itself is not modelled (a usable pio answers 0 unless a fault is injected; an unusable one raises FileNotFoundError / PermissionError / OSError(ENOEXEC) / NotADirectoryError or exits non-zero). The platform default text encoding is a scenario parameter emulated by the recorder. The theorems are about the model; the correspondence bounds its distance from the code.",
     "design_ref": "DESIGN.md section 4 C12",
 }
 
@@ -39,9 +39,26 @@ SCRIPTS = {
     "servo_i2c": (SERVO_I2C, ["Servo", "LiquidCrystal_I2C"], True),
     "unicode": ("# é ü √ 漢字\nfrom Reduino.Actuators import Led\nled = Led(5)\nled.on()\n", [], True),
     "bad_parse": ("from Reduino.Actuators import Led\nx = lambda: 1\nled = Led(3)\n", None, False),
+    # firmware text with characters outside ASCII / Latin-1 (the project file must still be that text)
+    "unicode_out": ("from Reduino.Communication import SerialMonitor\nmon = SerialMonitor(9600)\n"
+                    "mon.write(\"h\u00e9llo \u2713 \u6f22\")\n", [], True),
 }
+PRODUCT_SCRIPTS = [k for k in SCRIPTS if k != "unicode_out"]
 FAULTS = ["readmain", "mkdtemp", "mkdir", "writemain", "writeini", "build", "upload"]     # injectable
-MODEL_FAULT_ORDER = ["readmain", "parse", "mkdtemp", "mkdir", "writemain", "writeini", "build", "upload"]
+MODEL_FAULT_ORDER = ["readmain", "parse", "mkdtemp", "mkdir", "writemain", "writeini", "build", "upload",
+                     "buildexec", "uploadexec"]
+# scenario key "pio": True/"ok" usable; the rest are the ways PlatformIO discovery fails
+PIO_HOW = {"absent": 0, "noexec": 1, "badformat": 2, "notdir": 3, "exit": 4}
+EXEC_FAIL_STATES = ("absent", "noexec", "badformat", "notdir")     # pio cannot be started at all
+XKINDS = ["absent", "noexec", "badformat", "notdir"]
+FKINDS = ["perm", "nospc", "notfound", "rofs"]          # which OSError an injected file-system failure is
+# ports inside the guard of C13's round trip (no line break, no blank padding): device paths, URLs,
+# blanks inside, INI delimiters / comment characters / brackets / %, empty, non-ASCII
+PORTS_MORE = ["/dev/cu.usbmodem14201", "COM12", "/dev/tty.usbserial A9", "rfc2217://192.168.0.7:4000", "socket://host:23",
+              "/dev/serial/by-id/usb-Arduino__www.arduino.cc__0043-if00", "a=b:c", "x;y #z", "[COM3]", "100%", "${sysenv.PORT}",
+              "\u30dd\u30fc\u30c8/\u00fc", "COM3 ; trailing", "-p"]
+UNICODE_PORT = "\u30dd\u30fc\u30c8/\u00fc"
+LOCALES = ["cp1252", "ascii", "utf-16", "latin-1"]
 PAIRS = [("atmelavr", "uno"), ("atmelmegaavr", "nano_every"),
          ("espressif32", "uno"), ("atmelavr", "not_a_board"), ("atmelavr", "nano_every"), ("atmelmegaavr", "uno")]
 EXTRA_PAIRS = [("", "uno"), ("atmelavr", ""), ("ATMELAVR", "uno"), ("atmelavr", "Uno"), ("uno", "atmelavr")]
@@ -63,7 +80,11 @@ def fault_vectors(thorough: bool):
     """thorough: all 2^7 subsets of the injectable fault points; quick: all subsets of size <= 2,
     a few triples and the full set (smallest first, so the first failure reported is the simplest)"""
     if thorough:
-        return [list(c) for n in range(len(FAULTS) + 1) for c in itertools.combinations(FAULTS, n)]
+        out = [list(c) for n in range(len(FAULTS) + 1) for c in itertools.combinations(FAULTS, n)]
+        # ... and every vector of size <= 3 over all nine points that has pio not startable at the build / upload
+        allf = FAULTS + ["buildexec", "uploadexec"]
+        out += [list(c) for n in range(1, 4) for c in itertools.combinations(allf, n) if "buildexec" in c or "uploadexec" in c]
+        return out
     out = [list(c) for n in range(3) for c in itertools.combinations(FAULTS, n)]
     out += [["readmain", "mkdtemp", "build"], ["mkdir", "writeini", "upload"], ["writemain", "build", "upload"], list(FAULTS)]
     return out
@@ -73,31 +94,130 @@ def scenarios(thorough: bool, more_valid=()):
     out = []
     pairs = list(dict.fromkeys(PAIRS + list(more_valid) + (EXTRA_PAIRS if thorough else EXTRA_PAIRS[:2])))
     for i, fv in enumerate(fault_vectors(thorough)):
-        for j, script in enumerate(SCRIPTS):
+        for j, script in enumerate(PRODUCT_SCRIPTS):
             for k, (pl, b) in enumerate(pairs):
                 for upload in (False, True):
                     for pio in (False, True):
                         out.append({"script": script, "port": PORTS[(i + j + k) % 2], "platform": pl, "board": b,
                                     "upload": upload, "pio": pio, "faults": list(fv),
-                                    "rc": FAIL_RCS[(i + 2 * j + k + int(upload)) % len(FAIL_RCS)]})
+                                    "rc": FAIL_RCS[(i + 2 * j + k + int(upload)) % len(FAIL_RCS)],
+                                    "fkind": FKINDS[(i + j + 3 * k) % len(FKINDS)]})
+    return out
+
+
+def pio_state(v):
+    if v is True:
+        return "ok"
+    if v is False or v is None:
+        return "absent"
+    return str(v)
+
+
+def extra_scenarios(thorough, plats, rng):
+    """The streams beyond the fault-vector product (each names the part of the quantifier it covers)."""
+    out = []
+    valid2 = [("atmelavr", "uno"), ("atmelmegaavr", "nano_every")]
+    n = [0]
+
+    def add(stream, **kw):
+        sc = {"script": "led", "port": PORTS[n[0] % 2], "platform": "atmelavr", "board": "uno", "upload": True, "pio": True,
+              "faults": [], "rc": FAIL_RCS[n[0] % len(FAIL_RCS)], "xkind": XKINDS[n[0] % len(XKINDS)], "fkind": FKINDS[(n[0] // 3) % len(FKINDS)], "stream": stream}
+        sc.update(kw)
+        n[0] += 1
+        out.append(sc)
+
+    # (A) every way PlatformIO discovery can fail x upload x script x pair x single file faults
+    file_faults = [[]] + [[f] for f in ("readmain", "mkdtemp", "mkdir", "writemain", "writeini", "build", "upload")]
+    for state in ("noexec", "badformat", "notdir", "exit", "absent"):
+        for script in ("led", "servo_lcd", "bad_parse", "empty"):
+            for pl, b in valid2 + [("atmelavr", "nano_every"), ("espressif32", "uno")]:
+                for upload in (True, False):
+                    for fv in (file_faults if thorough or script == "led" else file_faults[:2]):
+                        add("discovery", pio=state, script=script, platform=pl, board=b, upload=upload, faults=list(fv))
+    # (B) pio usable at the probe, not startable (or failing) at the build / upload
+    tool = ["buildexec", "uploadexec", "build", "upload"]
+    tool_sets = [list(c) for k in range(1, 5) for c in itertools.combinations(tool, k) if "buildexec" in c or "uploadexec" in c]
+    for ts in tool_sets:
+        for extra in ([], ["writeini"], ["mkdir"], ["readmain"]):
+            for script in ("led", "all_libs", "bad_parse"):
+                for pl, b in valid2:
+                    for upload in (True, False):
+                        for state in (True, "exit") if thorough else (True,):
+                            add("tool-start", script=script, platform=pl, board=b, upload=upload, pio=state, faults=extra + ts)
+    # ... and each way a start can fail, at the build alone and at the upload alone
+    for xk in XKINDS:
+        for ts in (["buildexec"], ["uploadexec"], ["buildexec", "uploadexec"]):
+            for upload in (True, False):
+                add("tool-start", faults=list(ts), xkind=xk, upload=upload, script="servo_i2c")
+    # (C) every (platform, board) pair of the registry (identifiers with '-', upper case, digits, '_')
+    allpairs = [(pl, b) for pl in sorted(plats) for b in sorted(plats[pl])]
+    scripts3 = ["servo_lcd", "led", "all_libs"]
+    for i, (pl, b) in enumerate(allpairs):
+        word = all(c.isascii() and (c.isalnum() or c == "_") for c in b)
+        add("registry", script=scripts3[i % 3], platform=pl, board=b, upload=False, pio=False)
+        if thorough or not word:
+            add("registry", script=scripts3[(i + 1) % 3], platform=pl, board=b, upload=True, pio=True)
+            add("registry", script="led", platform=pl, board=b, upload=True, pio=True, faults=["upload"])
+    # every registered board with every OTHER platform name is a mismatch
+    for i, (pl, b) in enumerate(allpairs):
+        if thorough or i % 7 == 0:
+            for other in sorted(plats):
+                if other != pl:
+                    add("registry-mismatch", platform=other, board=b, upload=bool(i % 2), pio=bool(i % 3))
+    # near misses of registered names: the sanitised twin of a board that is not its own environment name, case and blank variants
+    near = [("atmelavr", "".join(c if (c.isalnum() or c == "_") else "_" for c in b)) for _, b in allpairs
+            if not all(c.isalnum() or c == "_" for c in b)]
+    near += [("atmelavr", "UNO"), ("atmelavr", " uno"), ("atmelavr", "uno "), ("atmelavr ", "uno"), ("Atmelavr", "uno"),
+             ("atmelavr", "uno\n"), ("atmelmegaavr", "Nano_Every"), ("atmelavr", "digispark tiny"), ("atmelavr", "digispark--tiny")]
+    for i, (pl, b) in enumerate(near):
+        add("near-miss", platform=pl, board=b, upload=bool(i % 2), pio=bool(i % 3), script=scripts3[i % 3])
+    # (D) ports
+    odd = [p for p in allpairs if not all(c.isalnum() or c == "_" for c in p[1])]
+    for i, port in enumerate(PORTS_MORE):
+        for j, (pl, b) in enumerate(valid2 + odd[:2] + ([odd[-1]] if odd else [])):
+            add("ports", port=port, script=scripts3[(i + j) % 3], platform=pl, board=b, upload=bool((i + j) % 2), pio=True)
+    # (E) platform default text encoding other than UTF-8; firmware with non-ASCII text
+    for loc in ["utf-8"] + LOCALES:
+        for script in ("unicode_out", "unicode", "led"):
+            for upload in (False, True):
+                add("locale", locale=loc, script=script, upload=upload, pio=True)
+                add("locale", locale=loc, script=script, upload=upload, pio=True, port=UNICODE_PORT,
+                    platform="atmelavr", board=(odd[0][1] if odd else "uno"))
+    # (F) seeded random mixtures of all of the above
+    states = [True, True, True, False, "noexec", "badformat", "notdir", "exit"]
+    allf = FAULTS + ["buildexec", "uploadexec"]
+    for _ in range(6000 if thorough else 600):
+        pl, b = rng.choice(allpairs) if rng.random() < 0.8 else rng.choice(PAIRS + EXTRA_PAIRS)
+        if rng.random() < 0.25 and odd:
+            pl, b = rng.choice(odd)
+        add("random", script=rng.choice(list(SCRIPTS)), port=rng.choice(PORTS + PORTS_MORE), platform=pl, board=b,
+            upload=rng.random() < 0.6, pio=rng.choice(states),
+            faults=sorted(rng.sample(allf, rng.choice([0, 0, 1, 1, 2, 3]))),
+            locale=rng.choice(["utf-8", "utf-8", "utf-8"] + LOCALES))
     return out
 
 
 def sc_key(sc):
-    return (sc["script"], sc["port"], sc["platform"], sc["board"], sc["upload"], sc["pio"], tuple(sc["faults"]))
+    return (sc["script"], sc["port"], sc["platform"], sc["board"], sc["upload"], pio_state(sc["pio"]), tuple(sc["faults"]),
+            sc.get("locale") or "utf-8", sc.get("rc"), sc.get("xkind"), sc.get("fkind"))
 
 
-def model_case(sc):
+def model_case(sc, expected=None):
     fl = set(sc["faults"])
     if not SCRIPTS[sc["script"]][2]:
         fl.add("parse")
-    return [0, sc["port"], sc["platform"], sc["board"], bool(sc["upload"]), bool(sc["pio"]),
-            [f in fl for f in MODEL_FAULT_ORDER]]
+    state = pio_state(sc["pio"])
+    if state in EXEC_FAIL_STATES:
+        # a pio that cannot be started cannot be started at the build / upload either
+        fl |= {"buildexec", "uploadexec"}
+    libs = ((expected or {}).get(sc["script"]) or {}).get("libs") or []
+    return [0, sc["port"], sc["platform"], sc["board"], bool(sc["upload"]), state == "ok",
+            [f in fl for f in MODEL_FAULT_ORDER], PIO_HOW.get(state, 0), list(libs)]
 
 
 def decode_model(m):
     """model wire output -> (events, result) in the implementation runner's vocabulary"""
-    if not (isinstance(m, list) and len(m) == 3 and m[0] == 0):
+    if not (isinstance(m, list) and len(m) == 4 and m[0] == 0):
         return None
     evs = []
     for e in m[1]:
@@ -110,7 +230,7 @@ def decode_model(m):
         res = ["raised", KIND_NAMES[r[1]]]
     else:
         res = ["returned", "none"]
-    return evs, res
+    return evs, res, [C.wstr(t) for t in m[3]]
 
 
 def run_impl_cases(cases, workers=8):
@@ -127,6 +247,12 @@ def run_impl_cases(cases, workers=8):
 
 
 # --------------------------------------------------------------------------- property oracle
+PIO_WORDS = {"ok": "present", "absent": "absent", "noexec": "on PATH without execute permission (PermissionError)",
+             "badformat": "on PATH but no executable format (OSError ENOEXEC)",
+             "notdir": "behind a PATH component that is a file (NotADirectoryError)",
+             "exit": "present but `pio --version` exits non-zero"}
+
+
 def oracle(sc, r, valid, expected, partner=None):
     """The C12 clauses evaluated on one recorded run of the real target().
     Returns a list of (key, what, expected, observed)."""
@@ -136,8 +262,11 @@ def oracle(sc, r, valid, expected, partner=None):
     res = r["result"]
     faults = set(sc["faults"])
     _, needs, parses = SCRIPTS[sc["script"]]
+    state = pio_state(sc["pio"])
+    loc = sc.get("locale") or "utf-8"
     call = (f"target({sc['port']!r}, upload={sc['upload']}, platform={sc['platform']!r}, board={sc['board']!r}) "
-            f"[script={sc['script']}, pio {'present' if sc['pio'] else 'absent'}, faults={sorted(faults) or 'none'}]")
+            f"[script={sc['script']}, pio {PIO_WORDS[state]}, faults={sorted(faults) or 'none'}"
+            + (f", platform default encoding {loc}" if loc != "utf-8" else "") + "]")
     raised = res[0] == "raised"
     wrote = [n for n in names if n in WRITE_TAGS] or r["tree"]
     if res[0] == "unsupported":
@@ -152,19 +281,20 @@ def oracle(sc, r, valid, expected, partner=None):
                         "no write, no process", {"events": evs, "tree": r["tree"]}))
         return out
 
-    # (2) upload requested, PlatformIO missing: RuntimeError before anything is written
-    if sc["upload"] and not sc["pio"]:
+    # (2) upload requested, PlatformIO discovery fails (in whichever way): RuntimeError before anything is written
+    if sc["upload"] and state != "ok":
         if wrote or any(n in ("RunBuild", "RunUpload") for n in names):
             out.append(("missing-pio", f"{call}: files/directories created although PlatformIO is missing",
                         "RuntimeError before anything is written", {"events": evs, "tree": r["tree"]}))
         if "readmain" not in faults and parses and not (raised and res[1] == "RuntimeError"):
-            out.append(("missing-pio", f"{call}: missing PlatformIO with upload=True is not a RuntimeError", "raises RuntimeError", res))
+            out.append(("missing-pio", f"{call}: missing PlatformIO with upload=True is not a RuntimeError", "raises RuntimeError",
+                        res))
 
     # (3) build / upload only on request
     if not sc["upload"]:
         if any(n in TOOL_TAGS for n in names):
             out.append(("upload-iff", f"{call}: PlatformIO was run although upload=False", "no pio run", evs))
-        if partner is not None and not sc["pio"]:
+        if partner is not None and state != "ok":
             def view(x):
                 return {"result": x["result"][:2], "effects": [e for e in x["events"] if e[0] not in RUN_TAGS],
                         "main": x["disk"].get("main_sha"), "ini": x["disk"].get("ini_fields")}
@@ -174,8 +304,8 @@ def oracle(sc, r, valid, expected, partner=None):
                             f"{call}: transpile-only use behaves differently without PlatformIO than with it",
                             {"with pio": b}, {"without pio": a}))
 
-    relevant = faults if sc["upload"] else faults - {"build", "upload"}
-    clean = not relevant and parses and (sc["pio"] or not sc["upload"])
+    relevant = faults if sc["upload"] else faults - {"build", "upload", "buildexec", "uploadexec"}
+    clean = not relevant and parses and (state == "ok" or not sc["upload"])
 
     # (4) otherwise: returns exactly the firmware text, project = that text + exact configuration
     if clean:
@@ -206,7 +336,7 @@ def oracle(sc, r, valid, expected, partner=None):
     # (5) a failed build never proceeds to upload; tool failures propagate
     failed_build_seen = False
     for x in r["runs"]:
-        if x["kind"] == "RunBuild" and x["rc"] not in (0, None):
+        if x["kind"] == "RunBuild" and x["rc"] != 0:          # non-zero exit, or (None) it could not be started
             failed_build_seen = True
         elif x["kind"] == "RunUpload" and failed_build_seen:
             out.append(("failed-build", f"{call}: upload attempted after a failed build", "no upload", r["runs"]))
@@ -260,6 +390,17 @@ def run(ctx: C.Ctx):
         bs = sorted(bs)
         more_valid += [(pl, bs[0]), (pl, bs[len(bs) // 2]), (pl, bs[-1])] if bs else []
     cases = scenarios(thorough, more_valid if thorough else more_valid[1::3])
+    for sc in cases:
+        sc["stream"] = "product"
+    cases += extra_scenarios(thorough, plats, ctx.rng)
+    # transpile-only scenarios without a usable PlatformIO get their twin with one (clause: same behaviour)
+    seen = {sc_key(sc) for sc in cases}
+    for sc in list(cases):
+        if not sc["upload"] and pio_state(sc["pio"]) != "ok":
+            tw = {**sc, "pio": True, "stream": "twin"}
+            if sc_key(tw) not in seen:
+                seen.add(sc_key(tw))
+                cases.append(tw)
     expected, results = run_impl_cases(cases, workers=12 if thorough else 8)
     by_key = {sc_key(sc): r for sc, r in zip(cases, results)}
 
@@ -273,9 +414,10 @@ def run(ctx: C.Ctx):
     # ---- correspondence: extracted model vs recorded run
     shape_info = None
     n_corr = 0
+    n_ini_cmp = 0
     if ctx.exe:
         shape_info = ctx.model([[1]])[0]
-        mouts = ctx.model([model_case(sc) for sc in cases])
+        mouts = ctx.model([model_case(sc, expected) for sc in cases])
         for sc, r, m in zip(cases, results, mouts):
             dm = decode_model(m)
             if dm is None:
@@ -288,21 +430,35 @@ def run(ctx: C.Ctx):
             elif (dm[0], dm[1]) != (impl_view[0], impl_view[1]):
                 ctx.disagree("effect list / result: model vs real target()", sc,
                              {"events": dm[0], "result": dm[1]}, {"events": r["events"], "result": r["result"]})
+            elif dm[2] and r.get("ini_arg") is not None and dm[2][0] != r["ini_arg"]:
+                n_ini_cmp += 1
+                ctx.disagree("platformio.ini text: model (Tool/Ini.v render through Tool/TargetIni.v) vs the text target() wrote",
+                             sc, dm[2][0], r["ini_arg"])
+            elif dm[2]:
+                n_ini_cmp += 1
 
     # ---- property oracle on the recorded runs (simplest scenarios first)
     dist_res, dist_len, dist_fault = {}, {}, {}
+    dist_stream, dist_pio, dist_locale = {}, {}, {}
+    boards_seen, ports_seen = set(), set()
     outcomes = set()
     n_valid = 0
     for sc, r in zip(cases, results):
         valid = is_valid_pair(plats, sc["platform"], sc["board"])
         n_valid += valid
-        partner = by_key.get(sc_key({**sc, "pio": True})) if not sc["pio"] else None
+        partner = by_key.get(sc_key({**sc, "pio": True})) if pio_state(sc["pio"]) != "ok" else None
         for key, what, exp, obs in oracle(sc, r, valid, expected, partner):
             ctx.fail(what, sc, exp, obs, key=key)
         k = r["result"][0] + ":" + str(r["result"][1])
         dist_res[k] = dist_res.get(k, 0) + 1
         dist_len[len(r["events"])] = dist_len.get(len(r["events"]), 0) + 1
         dist_fault[len(sc["faults"])] = dist_fault.get(len(sc["faults"]), 0) + 1
+        for dd, kk in ((dist_stream, sc.get("stream", "product")), (dist_pio, pio_state(sc["pio"])),
+                       (dist_locale, sc.get("locale") or "utf-8")):
+            dd[kk] = dd.get(kk, 0) + 1
+        if valid:
+            boards_seen.add((sc["platform"], sc["board"]))
+            ports_seen.add(sc["port"])
         outcomes.add(json.dumps([r["events"], r["result"][:2]]))
 
     # ---- known findings: replay every listed witness on the real code
@@ -318,32 +474,52 @@ def run(ctx: C.Ctx):
     ctx.coverage.update({
         "evaluations": len(cases),
         "distinct_nontrivial": sum(1 for sc in cases if is_valid_pair(plats, sc["platform"], sc["board"])),
-        "rule": "exhaustive product: fault vectors (quick: every subset of size <= 2, three triples and the full set; thorough: all 2^7 subsets of "
-                "{readmain, mkdtemp, mkdir, writemain, writeini, build failing, upload failing - exit status rotating over 1, 2, 127 and signal deaths -9, -15}) x 8 scripts (parallel+I2C LCD, Servo+both LCDs, LED blink, empty, Servo+parallel LCD, "
+        "rule": "exhaustive product: fault vectors (quick: every subset of size <= 2, three triples and the full set; thorough: all 2^7 subsets, plus every vector of size <= 3 that also has pio not startable at the build / upload, of "
+                "{readmain, mkdtemp, mkdir, writemain, writeini (the injected OSError rotating over PermissionError, ENOSPC, FileNotFoundError, EROFS), build failing, upload failing - exit status rotating over 1, 2, 127 and signal deaths -9, -15}) x 8 scripts (parallel+I2C LCD, Servo+both LCDs, LED blink, empty, Servo+parallel LCD, "
                 "two Servos+I2C LCD, non-ASCII comment, one the transpiler rejects with ValueError = the parse fault) x (platform, board) pairs "
                 "(2 valid on both platforms, unknown platform, unknown board, 2 mismatched, near-miss names) x upload x PlatformIO present/absent; "
-                "non-trivial = the pair is valid, so the call gets past validation; every scenario goes through the model correspondence and the oracle",
+                "non-trivial = the pair is valid, so the call gets past validation; every scenario goes through the model correspondence and the oracle. "
+                "Further streams: (discovery) every way the probe `pio --version` can fail - not on PATH, PermissionError, OSError(ENOEXEC), NotADirectoryError, "
+                "non-zero exit - x upload x scripts x pairs x single faults; (tool-start) pio usable at the probe but not startable / failing at the build or the "
+                "upload (subsets of buildexec, uploadexec, build, upload; exception class rotating) x file faults; (registry) EVERY (platform, board) pair of the "
+                "registry, the boards that are not their own environment name also with upload; (registry-mismatch) registered boards under the other platforms; (near-miss) sanitised twins of the boards that are not their own "
+                "environment name, case / blank / line-break variants of registered names; "
+                "(ports) 14 port strings inside C13's guard (blanks, INI delimiters, comment characters, brackets, %, ${}, non-ASCII); (locale) platform "
+                "default encodings cp1252 / ascii / utf-16 / latin-1 for calls that do not name one, with firmware text outside ASCII; (random) seeded mixtures; "
+                "(twin) the same transpile-only call with a usable PlatformIO",
         "samples": [cases[0], cases[len(cases) // 3], cases[-1]],
         "distribution": {"scenarios": len(cases), "valid_pair": n_valid, "results": dist_res,
                          "event_list_lengths": {str(k): v for k, v in sorted(dist_len.items())},
                          "faults_per_scenario": {str(k): v for k, v in sorted(dist_fault.items())},
                          "distinct_observed_outcomes": len(outcomes), "model_cases_compared": n_corr,
+                         "ini_texts_compared_with_model": n_ini_cmp,
+                         "streams": dist_stream, "pio_state": dist_pio, "platform_default_encoding": dist_locale,
+                         "registry_pairs": sum(len(v) for v in plats.values()),
+                         "distinct_valid_pairs_run": len(boards_seen),
+                         "valid_boards_not_their_own_env_name": sorted(b for _, b in boards_seen if not all(c.isascii() and (c.isalnum() or c == "_") for c in b)),
+                         "distinct_ports_run": len(ports_seen),
                          "current_shape_ok_by_model": None if shape_info is None else bool(shape_info[1]),
                          "current_shape_steps": None if shape_info is None else shape_info[2]},
         "exhaustive": True,
         "guard": "none (no known finding is excluded; the unconditional ensure_pio() of the pinned commit is repaired by a fix: commit, see known_findings kind=fixed)",
-        "unmodelled": ["PlatformIO itself (a present pio exits 0 unless a fault is injected; an absent one makes subprocess.run raise FileNotFoundError)",
-                       "`pio --version` present but exiting non-zero (wrapped into RuntimeError by the same except clause)",
+        "unmodelled": ["PlatformIO itself (a usable pio exits 0 unless a fault is injected; an unusable one makes subprocess.run raise the OSError of its state)",
+                       "exceptions of the probe other than FileNotFoundError / PermissionError / NotADirectoryError / OSError(ENOEXEC) / CalledProcessError "
+                       "(KeyboardInterrupt, MemoryError, TimeoutExpired - no timeout is passed)",
+                       "a script file that is not UTF-8 (PEP 263 coding cookie): read_text(encoding='utf-8') raises UnicodeDecodeError",
                        "sys.modules['__main__'] without __file__ (interactive use: AttributeError)",
                        "failures inside emit() or _collect_required_libraries() (no fault point; C11/C14)",
                        "partial writes (a write either happens completely or raises before writing)",
                        "the stderr notice about the Servo library"],
         "trusted_base": C.COMMON_TRUSTED + [
-            "harness/gen/target.py (reads the statement sequence of target() and the signatures of the four pio.py helpers with ast; fail-closed)",
+            "harness/gen/target.py (reads the statement sequence of target(), the signatures of the four pio.py helpers, the except clauses of ensure_pio() "
+            "and the two subprocess.run statements of compile_upload() with ast; fail-closed)",
             "harness/impl/c12_impl.py (recording doubles for subprocess.run, tempfile.mkdtemp, pathlib.Path.read_text/write_text/mkdir, wrappers of Reduino.parse/emit; inspects the project directory on disk, configparser read-back)",
             "harness/impl/c13_impl.py registry dump (the oracle's notion of a supported pair: board registered for exactly that platform)"],
     })
     ctx.assumptions += [
+        "a PlatformIO whose discovery probe fails in any way (cannot be started, or `pio --version` exits non-zero) is a 'missing PlatformIO' in the sense of "
+        "the statement (anchor: ensure_pio wraps any failure into RuntimeError)",
+        "a read_text/write_text without encoding= uses the platform default, which is a parameter of the scenario (emulated by the recorder)",
         "a step either fails before having any effect or succeeds (fault injection raises before the real operation)",
         "parse/emit are the module globals target() looks up at call time (wrapped to record the attempts)",
         "CPython configparser(interpolation=None) is the reference INI reader (as in C13)"]
@@ -359,7 +535,7 @@ def replay(data):
     print("implementation:", json.dumps({"events": rr[0]["events"], "result": rr[0]["result"], "disk": rr[0]["disk"], "runs": rr[0]["runs"]}, indent=1)[:3000])
     try:
         exe = C.build_model("C12")
-        print("model:", decode_model(C.run_model(exe, [model_case(sc)])[0]))
+        print("model:", decode_model(C.run_model(exe, [model_case(sc, expected)])[0]))
     except Exception as e:  # noqa
         print("model unavailable:", e)
     fails = oracle(sc, rr[0], is_valid_pair(reg["platforms"], sc["platform"], sc["board"]), expected, rr[1])
